@@ -1,7 +1,7 @@
 //! Decoding of account bytes with the repository's own `#[repr(C)]` layouts (type crate) and a
 //! shadow copy of the closed world. Numbers are converted straight to exact rationals.
 use crate::num::*;
-use crate::tap::{Snap, TapEvent};
+use crate::tapdefs::{Snap, TapEvent};
 use marginfi_type_crate::constants::discriminators;
 use marginfi_type_crate::types::*;
 use solana_sdk::{account::Account, pubkey::Pubkey};
